@@ -1,6 +1,8 @@
 from vlib import runner, sysprops
 
-PARTIAL = ['known finding: over-throttle when the inner poll drains a cancellation/expiry before reading the request']
+PARTIAL = [
+    "'refused only if L others in flight when read' is false of the code (known finding, witness theorem); proved instead: a refusal happens only in a poll that began at the limit (C12RefusedOnlyAtLimitStatement kept as def)",
+]
 
 
 def run(tier, seed, replay):
